@@ -53,8 +53,9 @@ type PkgIndex struct {
 	// method values / function values taken (not called): f escapes
 	Escapes map[*types.Func][]token.Pos
 
-	mu  sync.Mutex
-	fgs map[*FuncInfo]*FG
+	mu    sync.Mutex
+	fgs   map[*FuncInfo]*FG
+	specs map[*FuncInfo]*FuncInfo // delegating method → its shared implementation specialised to that call (delegateUnder)
 }
 
 type CallSite struct {
